@@ -441,31 +441,54 @@ def text_layout(run, m, F, E):
                     else:
                         if not s5.assume_ge0(-P):
                             continue
-                    al = single(s5, fl['alignment'].lin)
-                    dav = single(s5, da.lin)
                     text = [('text', PtrV('TEXT'), cut)] if s5.is_eq0(cut) is not True else []
-                    if padcase == 'pad':
-                        pc = padch_expected(s5, fl)
+                    if padcase != 'pad':
+                        got = rendering(I, s5, s5.events)
+                        cases.add((cutcase, padcase, '-'))
+                        judge_seq(s5, got, text, probs, und, 'text %s, not padded, alignment -' % ('cut to the precision' if cutcase == 'cut' else 'whole'), wit=[width, ts, prec])
+                        continue
+                    # the side is decided by the alignment field and, for align_default, by the default the caller passed: a path of
+                    # the routine that does not split on them (because it decided the side from something else) is split here
+                    subcases = [s5]
+                    for term in (fl['alignment'].lin, da.lin):
+                        nxt = []
+                        for sx in subcases:
+                            if single(sx, term) is not None:
+                                nxt.append(sx)
+                                continue
+                            for v_ in sorted(set(AL.values())):
+                                sy = sx.clone()
+                                if sy.assume_eq0(term - v_):
+                                    nxt.append(sy)
+                        subcases = nxt
+                    for s6 in subcases:
+                        pc = padch_expected(s6, fl)
                         if pc is None:
                             und.append('pad unit not decided')
                             continue
+                        al = single(s6, fl['alignment'].lin)
                         if al is None:
                             und.append('alignment not decided on a padded path')
                             continue
                         eff = fl['alignment'].lin if al != AL['default'] else da.lin
-                        isr = s5.is_eq0(eff - AL['right'])
+                        isr = s6.is_eq0(eff - AL['right'])
                         if isr is None:
                             und.append('effective alignment not decided on a padded path')
                             continue
                         pad = [('run', pc, P)]
-                        exp = pad + text if isr else text + pad
                         side = 'right' if isr else 'left'
-                    else:
-                        exp = text
-                        side = '-'
-                    got = rendering(I, s5, s5.events)
-                    cases.add((cutcase, padcase, side))
-                    judge_seq(s5, got, exp, probs, und, 'text %s, %s, alignment %s' % ('cut to the precision' if cutcase == 'cut' else 'whole', 'padded' if padcase == 'pad' else 'not padded', side), wit=[width, ts, prec])
+                        cases.add((cutcase, padcase, side))
+                        # judged apart for an empty and a non-empty emitted text, so that a witness of a wrong side is a rendering
+                        # in which the side shows (with nothing emitted from the text both orders are the same output)
+                        for empty in (False, True):
+                            s7 = s6.clone()
+                            if not (s7.assume_eq0(cut) if empty else s7.assume_ge0(cut - 1)):
+                                continue
+                            tx = [] if empty else [('text', PtrV('TEXT'), cut)]
+                            exp = pad + tx if isr else tx + pad
+                            got = rendering(I, s7, s7.events)
+                            judge_seq(s7, got, exp, probs, und, 'text %s, padded, alignment %s' % ('cut to the precision' if cutcase == 'cut' else 'whole', side),
+                                      wit=[width, ts, prec, fl['alignment'].lin, da.lin] + ([fl['numeric_pad'].lin] if 'numeric_pad' in fl else []))
     if len(cases) < 6:
         und.append('only %d (cut, padded, side) cases explored' % len(cases))
     run.ob('R11.2', short(f.dem), False if probs else (None if und else True), probs[0] if probs else (und[0] if und else
